@@ -52,7 +52,14 @@ def r_layer_views(run, tree):
     lf.check_layer_copies(run, tree)
 
 
-RULES = [r_layer_views, r1_r2, r3, r5]
+def r7_kernel(run, tree):
+    run.rule("C11.R7", "the kernel that samples the column writes every sample from its own cell under containment, with no buffer shared between threads (shared with C03.R1/R2)",
+             "D1 symbolic kernel evaluation + parallel-loop write classification", "", floor=2)
+    mr.check_kernel_containment(run, tree)
+    mr.check_kernel_schedule(run, tree)
+
+
+RULES = [r_layer_views, r1_r2, r3, r5, r7_kernel]
 
 
 def t_map_space(run, tree):
